@@ -271,6 +271,11 @@ def tier_cases(draw):
         spec["maxT"] = max(spec["maxT"], t0 + 1.0)
         spec["minT"] = min(spec["minT"], t0)
         a, b = t0 + d / 2, t0 + draw(st.sampled_from([0.5, 1.0, 0.3]))
+    if style == "grid" and draw(st.integers(0, 7)) == 0:
+        # a time axis that starts below zero (times relative to an event): the constructor and validate() accept it
+        k = draw(st.sampled_from([2.5, 4.0, 1.0]))
+        spec = dict(spec, entries=[[x - k for x in e[:-1]] + [e[-1]] for e in spec["entries"]], minT=spec["minT"] - k, maxT=spec["maxT"] - k)
+        a, b = a - k, b - k
     pre = draw(st.one_of(st.none(), st.none(), st.fixed_dictionaries({"delete": st.one_of(st.none(), st.integers(0, 7))})))
     return {"tier": spec, "a": a, "b": b, "mode": draw(st.sampled_from(MODES)), "shrink": draw(st.booleans()), "pre": pre}
 
